@@ -2,11 +2,61 @@
 from harness import progcheck
 from harness.props import common
 
+IO = "require IO; "
+
+
+def law_cases():
+    """error / finally laws with the result the property's rules give, on forms the generated programs do not reach:
+    exits evaluated in a finally part while an error is in flight, errors raised in loops over input streams, comprehensions, arguments"""
+    cases = [
+        # an unmatched error continues outward unchanged, whatever the finally part evaluates
+        ("def f() do do error 5 finally return 1 end end; do f() catch 5 'caught' end", ('text', "'caught'")),
+        ("def f() do do error 5 catch 6 0 finally return 1 end end; do f() catch all 'c' end", ('text', "'c'")),
+        ("def f() do do error 5 catch 5 error 7 finally return 1 end end; do f() catch 7 'seven' end", ('text', "'seven'")),
+        ("def f() do do error [1, 2] finally return 1 end end; f()", ('error', "[1, 2]")),
+        ("def n = 0; do for i in [1, 2, 3] do do error i finally break end end catch 1 n = 100 end; n", ('text', "100")),
+        ("def n = 0; do for i in [1, 2, 3] do do error i finally continue end end catch 1 n = 100 end; n", ('text', "100")),
+        ("def n = 0; do while TRUE do do error 'w' finally break end end catch 'w' n = 7 end; n", ('text', "7")),
+        # a finally part that evaluates an exit when no error is in flight does not change the block's value
+        ("def f() do do 3 finally return 1 end end; f()", ('text', "3")),
+        # errors raised by the body of a loop over an input stream keep their value
+        (IO + "do for l in IO->str_input('a\\nb') do error 42 end catch 42 'ok' end", ('text', "'ok'")),
+        (IO + "do for l in IO->str_input('a\\nb') do error [1, l] end catch [1, 'a'] 'list' end", ('text', "'list'")),
+        (IO + "do for l in IO->str_input('a\\nb') do error <<<l => 1>>> end catch all 'm' end", ('text', "'m'")),
+        (IO + "for l in IO->str_input('a\\nb') do error 42 end", ('error', "42")),
+        (IO + "for l in IO->str_input('a\\nb') do error 'boom' end", ('error', "'boom'")),
+        (IO + "for l in IO->str_input('a\\nb') do error NULL end", ('error', "NULL")),
+        (IO + "do for l in IO->str_input('a\\nb') do 1 / 0 end catch 'ERROR' 'rt' end", ('text', "'rt'")),
+        (IO + "def log = []; do for l in IO->str_input('a\\nb\\nc') do do if l == 'b' then error <<l>> finally append(log, l) end end catch <<'b'>> log end", ('text', "['a', 'b']")),
+        (IO + "def g(inp) do for l in inp do if l == 'b' then error 9 end; 'done' end; do g(IO->str_input('a\\nb')) catch 9 'nine' end", ('text', "'nine'")),
+        # errors raised inside comprehensions, arguments, defaults, conditions, handlers' values
+        ("do [error x for x in [4, 5]] catch 4 'first' end", ('text', "'first'")),
+        ("do <<<x => error 'v' for x in [1]>>> catch 'v' 'map' end", ('text', "'map'")),
+        ("def f(a, b) 0; do f(1, error 2) catch 2 'arg' end", ('text', "'arg'")),
+        ("def f(a = error 'd') a; do f() catch 'd' 'default' end", ('text', "'default'")),
+        ("do if error 1 then 2 else 3 catch 1 'cond' end", ('text', "'cond'")),
+        ("do while error 'c' do 1 end catch 'c' 'wcond' end", ('text', "'wcond'")),
+        ("do error 1 catch error 2 'never' end", ('error', "2")),
+        ("do do error 1 catch 1 error 2 end catch 2 'outer' end", ('text', "'outer'")),
+        ("do do error 1 catch 2 'no' end catch 1 'outer' end", ('text', "'outer'")),
+        ("do do error 1.0 catch 1 'int-decimal equal' end catch all 'outer' end", ('text', "'int-decimal equal'")),
+        ("def log = []; do do error 1 finally append(log, 'f1') end catch 1 append(log, 'h') finally append(log, 'f2') end; log", ('text', "['f1', 'h', 'f2']")),
+        ("def log = []; do do do error 1 finally append(log, 1) end finally append(log, 2) end catch all append(log, 3) end; log", ('text', "[1, 2, 3]")),
+        ("def log = []; def f() do do return 5 finally append(log, 'fin') end; append(log, 'after') end; [f(), log]", ('text', "[5, ['fin']]")),
+        ("def log = []; for i in [1, 2, 3] do do if i == 2 then continue; if i == 3 then break; append(log, i) finally append(log, -i) end end; log", ('text', "[1, -1, -2, -3]")),
+        ("def log = []; do do error 1 finally do error 2 finally append(log, 'inner') end end catch 2 append(log, 'two') end; log", ('text', "['inner', 'two']")),
+        ("def log = []; do append(log, 1); error 'x'; append(log, 2) catch 'x' append(log, 3) end; log", ('text', "[1, 3]")),
+    ]
+    return cases
+
 
 def run(ctx):
     ctx.rule = ("generated nests (depth <= 4) of do/catch/finally blocks inside functions and loops with user errors of every data kind and runtime errors injected at varying statement positions, handlers and finally parts that themselves raise or return; in-program event log; non-trivial = >= 2 nested blocks with a raise site below a handler or finally; each program is run on the implementation, on a reference interpreter written from the language rules "
-                "(value + printed trace must match) and on the Lean model evaluator")
+                "(value + printed trace must match) and on the Lean model evaluator; plus law programs: return/break/continue evaluated in a finally part "
+                "while an error is in flight, errors of every kind raised in loops over input streams, in comprehensions, arguments, defaults, "
+                "conditions and handler values")
     progcheck.run_profiles(ctx, ["errors", "mixed"], 3000 if ctx.thorough else 500)
+    progcheck.run_templates(ctx, law_cases(), "error-laws")
     common.replay_known(ctx)
 
 
